@@ -45,7 +45,7 @@ fn build_attrs(entries: &[(String, GVal)]) -> Attributes {
     a
 }
 
-fn observe_attrs(a: &Attributes) -> Vec<(String, GVal)> {
+pub fn observe_attrs(a: &Attributes) -> Vec<(String, GVal)> {
     a.iter()
         .map(|(k, v)| (k.clone(), GVal::from_variant(v, &|_| GRef::Dangling)))
         .collect()
@@ -327,6 +327,141 @@ fn exhaustive_body(case: &Exh, ctx: &mut CaseCtx) -> PropResult {
     Ok(())
 }
 
+// ---------------------------------------------------------------------------
+// the map API as a history: the blob always describes the map as it is now
+
+#[derive(Clone, Debug, Serialize, Deserialize)]
+pub enum MapOp {
+    Insert(u8, GVal),
+    With(u8, GVal),
+    Remove(u8),
+    Extend(Vec<(u8, GVal)>),
+    Clear,
+    Drain,
+    /// encode now and compare with the document-derived encoding of the model
+    Encode,
+    /// replace the map by a clone of itself
+    CloneSelf,
+    /// rebuild through IntoIterator / FromIterator
+    Recollect,
+    /// decode(encode(map)) replaces the map
+    Reload,
+}
+
+#[derive(Clone, Debug, Serialize, Deserialize)]
+pub struct MapHistory {
+    pub ops: Vec<MapOp>,
+}
+
+fn map_history_body(h: &MapHistory, ctx: &mut CaseCtx) -> PropResult {
+    let name = |k: u8| format!("k{}", k % 6);
+    let to_v = |v: &GVal| v.to_variant(&|_| Ref::none(), Ref::none());
+    let mut real = Attributes::new();
+    let mut model: std::collections::BTreeMap<String, GVal> = Default::default();
+    let mut encodes = 0;
+    let mut edits_after_encode = false;
+    let norm = Norm::binary();
+    for (step, op) in h.ops.iter().enumerate() {
+        match op {
+            MapOp::Insert(k, v) => {
+                let old = real.insert(name(*k), to_v(v));
+                let want = model.insert(name(*k), v.clone());
+                ensure!(old.is_some() == want.is_some(), "attr:map:insert-return", "step {step}: insert returned {:?}, the map {} the key", old.is_some(), if want.is_some() { "had" } else { "did not have" });
+                edits_after_encode |= encodes > 0;
+            }
+            MapOp::With(k, v) => {
+                real = std::mem::take(&mut real).with(name(*k), to_v(v));
+                model.insert(name(*k), v.clone());
+                edits_after_encode |= encodes > 0;
+            }
+            MapOp::Remove(k) => {
+                let old = real.remove(name(*k).as_str());
+                let want = model.remove(&name(*k));
+                ensure!(old.is_some() == want.is_some(), "attr:map:remove-return", "step {step}: remove returned {:?}", old.is_some());
+                edits_after_encode |= encodes > 0;
+            }
+            MapOp::Extend(items) => {
+                real.extend(items.iter().map(|(k, v)| (name(*k), to_v(v))));
+                for (k, v) in items {
+                    model.insert(name(*k), v.clone());
+                }
+                edits_after_encode |= encodes > 0 && !items.is_empty();
+            }
+            MapOp::Clear => {
+                real.clear();
+                model.clear();
+                edits_after_encode |= encodes > 0;
+            }
+            MapOp::Drain => {
+                let n = real.drain().count();
+                ensure!(n == model.len(), "attr:map:drain-count", "step {step}: drain yielded {n} of {} entries", model.len());
+                model.clear();
+                edits_after_encode |= encodes > 0;
+            }
+            MapOp::CloneSelf => real = real.clone(),
+            MapOp::Recollect => real = real.into_iter().collect(),
+            MapOp::Reload | MapOp::Encode => {
+                let mut bytes = Vec::new();
+                no_panic("Attributes::to_writer", || real.to_writer(&mut bytes))?.map_err(|e| Fail::new("attr:encode-error", e.to_string()))?;
+                encodes += 1;
+                let entries: Vec<(String, GVal)> = model.iter().map(|(k, v)| (k.clone(), v.clone())).collect();
+                let expected = match oracle::normalise_attributes(&GVal::Attributes(entries.clone())) {
+                    GVal::Attributes(e) => e,
+                    _ => unreachable!(),
+                };
+                let described = refattr::decode_map(&bytes).map_err(|e| Fail::new("attr:layout-undecodable", e.0))?;
+                ensure!(
+                    oracle::val_matches(&GVal::Attributes(expected.clone()), &GVal::Attributes(described.clone()), &norm),
+                    "attr:map:stale-or-wrong-blob",
+                    "step {step}: after {:?} the blob describes {:?}, the map holds {:?}",
+                    h.ops.iter().take(step).collect::<Vec<_>>(),
+                    described,
+                    expected
+                );
+                if matches!(op, MapOp::Reload) {
+                    real = no_panic("Attributes::from_reader", || Attributes::from_reader(bytes.as_slice()))?.map_err(|e| Fail::new("attr:own-blob-rejected", e.to_string()))?;
+                    model = expected.into_iter().collect();
+                }
+            }
+        }
+        ensure!(real.len() == model.len() && real.is_empty() == model.is_empty(), "attr:map:len", "step {step}: len() = {}, the map holds {} entries", real.len(), model.len());
+        let seen: Vec<(String, GVal)> = observe_attrs(&real);
+        let want: Vec<(String, GVal)> = model.iter().map(|(k, v)| (k.clone(), v.clone())).collect();
+        ensure!(
+            oracle::val_matches(&GVal::Attributes(want.clone()), &GVal::Attributes(seen.clone()), &Norm { snap_in_attributes: true, ..norm }) || seen == want,
+            "attr:map:contents",
+            "step {step}: iter() shows {:?}, expected {:?}",
+            seen,
+            want
+        );
+        for (k, v) in &model {
+            let got = real.get(k.as_str()).map(|x| GVal::from_variant(x, &|_| GRef::Dangling));
+            ensure!(got.as_ref().map(|g| oracle::val_matches(v, g, &Norm { snap_in_attributes: true, ..norm }) || g == v).unwrap_or(false), "attr:map:get", "step {step}: get({k}) = {:?}, expected {:?}", got, v);
+        }
+    }
+    ctx.label_if(encodes >= 2, "encoded_twice");
+    ctx.label_if(edits_after_encode, "edited_after_an_encode");
+    ctx.nontrivial_if(edits_after_encode && encodes >= 2);
+    Ok(())
+}
+
+fn map_history_strategy() -> BoxedStrategy<MapHistory> {
+    let val = || vals::attribute_value(ValProfile::binary(), false);
+    let op = prop_oneof![
+        3 => (any::<u8>(), val()).prop_map(|(k, v)| MapOp::Insert(k, v)),
+        1 => (any::<u8>(), val()).prop_map(|(k, v)| MapOp::With(k, v)),
+        2 => any::<u8>().prop_map(MapOp::Remove),
+        2 => proptest::collection::vec((any::<u8>(), val()), 0..3).prop_map(MapOp::Extend),
+        1 => Just(MapOp::Clear),
+        1 => Just(MapOp::Drain),
+        4 => Just(MapOp::Encode),
+        1 => Just(MapOp::CloneSelf),
+        1 => Just(MapOp::Recollect),
+        1 => Just(MapOp::Reload),
+    ];
+    proptest::collection::vec(op, 1..12).prop_map(|ops| MapHistory { ops }).boxed()
+}
+
 /// Values longer than any buffer the codecs pre-size (64 Ki items): lengths around and above the cap.
 #[derive(Clone, Debug, Serialize, Deserialize)]
 pub struct LongCase {
@@ -383,6 +518,13 @@ pub fn run(ctx: &Ctx) -> PropertyReport {
     if sub.runs("file-blobs") {
         let cases = ctx.cfg.cases(20_000, 300_000);
         rep.push(ctx.run_prop("file-blobs", cases, || attr_case(8), file_blob_body));
+    }
+    if sub.runs("map-history") {
+        let cases = ctx.cfg.cases(60_000, 1_500_000);
+        let mut r = ctx.run_prop("map-history", cases, map_history_strategy, map_history_body);
+        r.floor("edited_after_an_encode", cases / 10);
+        r.floor("encoded_twice", cases / 10);
+        rep.push(r);
     }
     if sub.runs("long-values") {
         let mut cases = Vec::new();
